@@ -156,6 +156,10 @@ type w struct {
 	b strings.Builder
 }
 
+// EmptyPresence is the Presence value that renders as `presence "";` (the field itself is non-empty: the node is a
+// presence container for every model).
+const EmptyPresence = "\x00empty-presence"
+
 // Quote renders a string as a double-quoted YANG argument.
 func Quote(s string) string { return q(s) }
 
@@ -323,7 +327,10 @@ func (x *w) node(d int, n *Node) {
 	for _, u := range n.Uniques {
 		x.ln(d, "unique %s;", q(u))
 	}
-	if n.Presence != "" {
+	if n.Presence == EmptyPresence {
+		// a presence statement whose argument is the empty string still makes the container a presence container
+		x.ln(d, "presence \"\";")
+	} else if n.Presence != "" {
 		x.ln(d, "presence %s;", q(n.Presence))
 	}
 	if n.Default != nil {
